@@ -55,6 +55,9 @@ CHECKS = {
     "C08": ("exploration", E1 + " (entry points x options x mask subsets x masked payloads x input order; differential masked-vs-removed oracle)",
             "About 50 (110) configured entry points - KK tests, evaluate_log_F_ext, exploratory KK, Z-HIT incl. the offset-shift case, four DRT methods and circuit fits - x every mask subset of size <= 2 over four probe positions x garbage payloads at the masked points x ascending/descending input: result frequencies, residual definition, pseudo chi-squared, attached circuit, untouched inputs, and bit-identical result versus the data set with the masked points physically removed.",
             "All option combinations are carried by one noisy 25-point mock spectrum (plus one with negative Re Y); BHT is run with a fixed numpy seed on both legs.", "DESIGN.md section 4, C08"),
+    "C13": ("exploration", E1 + " (ladder grid x DRT methods x lambda modes x scalings; generating circuit as oracle)",
+            "Ladders of 1-4 RC/RQ elements x resistance scales x grids x TR-NNLS (2 modes x 3 lambda modes), the Loewner method, m(RQ)fit (exact fit and real fitting path; per-element areas by superposition) and four scalings: non-negativity, area = R_pol, a peak at every R*C, exact Loewner pairs without inductive branch, scaling laws. Tolerances frozen from a calibration on the unchanged tree.",
+            "Ladders with >= 1.5 decades spacing only (the property's own restriction); calls that raise are counted and judged by C18.", "DESIGN.md section 4, C13"),
 }
 
 NOT_YET = "check not built yet in this round (planned, see DESIGN.md section 4)"
